@@ -105,8 +105,14 @@ def refusal_satisfiable(cond, val, env):
 def allocator_obligations(ck, tm, R=lambda r: r):
     """R11.1-R11.3, R11.5 on the loop-summarised allocator(s) of one target; returns the largest accepted distance (None if unknown).
     `R` renames the rule ids when another property repeats these obligations (C05 R5.10)."""
+    def _ob(rule, *a, **k):        # a caller that repeats only some of these obligations maps the others to None
+        return ck.ob(rule, *a, **k) if rule else None
+
+    def _floor(rule, *a, **k):
+        return ck.floor(rule, *a, **k) if rule else None
+
     allocs = allocator_fns(tm)
-    ck.floor(R("R11.1"), "allocator-functions", len(allocs), 1, tm.target)
+    _floor(R("R11.1"), "allocator-functions", len(allocs), 1, tm.target)
     bound_strict = None
     for p in allocs:
         an = short(p)
@@ -114,7 +120,7 @@ def allocator_obligations(ck, tm, R=lambda r: r):
             src, res = allocator_contract(tm, p)
             vs = allocator_variants(tm, p)
         except Exception as e:
-            ck.ob(R("R11.1"), "%s/analysable" % an, tm.target, False, "allocator could not be analysed: %s" % e)
+            _ob(R("R11.1"), "%s/analysable" % an, tm.target, False, "allocator could not be analysed: %s" % e)
             continue
         for f in tm.machines[(p, "havoc")].entered:
             ck.analysed_fn(tm.target, f)
@@ -123,7 +129,7 @@ def allocator_obligations(ck, tm, R=lambda r: r):
         # is an installation that panics - or, without overflow checks, scans from a wrapped address - for low functions)
         subs = sorted({(n[1], n[2]) for n in tm.machines[(p, "havoc")].notes if n[0] == "unguarded-sub"})
         if "@release" not in tm.target:
-            ck.ob(R("R11.9"), "%s/window-clipped-not-wrapped" % an, tm.target, not subs,
+            _ob(R("R11.9"), "%s/window-clipped-not-wrapped" % an, tm.target, not subs,
                   "subtractions in the allocator that may underflow: %s" % (", ".join("%s in %s" % (e_, short(f_)) for e_, f_ in subs) or "none"))
         nret = nrej = ndiv = 0
         for v in vs:
@@ -140,7 +146,7 @@ def allocator_obligations(ck, tm, R=lambda r: r):
                         sent = True
                 b = [bb for vv, rr, bb in res if vv is v]
                 bound = b[0] if b else None
-                ck.ob(R("R11.1"), "%s/returns-accepted-mapping" % an, tm.target, ok_ret and sent and bound is not None,
+                _ob(R("R11.1"), "%s/returns-accepted-mapping" % an, tm.target, ok_ret and sent and bound is not None,
                       "returns %s; mapping call result %s; failure sentinel excluded: %s; accepted distance: |placed - function| <= %s" % (
                           fmt(ret.e, 3) if isinstance(ret, Int) else ret, fmt(maps[-1].ret.e, 3) if maps else "none", sent,
                           hex(bound) if isinstance(bound, int) else bound), where(maps[-1]) if maps else None)
@@ -158,11 +164,11 @@ def allocator_obligations(ck, tm, R=lambda r: r):
                     ok = len(frees) == 1 and same_expr(frees[0].args[0].e, maps[-1].ret.e) and (
                         (tm.os == "windows" and frees[0].args[1].is_const() and frees[0].args[1].cval() == 0 and frees[0].args[2].is_const() and frees[0].args[2].cval() == 0x8000)
                         or (tm.os != "windows" and same_expr(frees[0].args[1].e, maps[-1].args[1].e)))
-                    ck.ob(R("R11.2"), "%s/rejected-placement-released" % an, tm.target, ok,
+                    _ob(R("R11.2"), "%s/rejected-placement-released" % an, tm.target, ok,
                           "placement outside the accepted distance: %s" % ("released with %s(%s, %s)" % (short(frees[0].name), fmt(frees[0].args[0].e, 3), fmt(frees[0].args[1].e, 3))
                                                                               if frees else "NOT released before the next iteration"), where(maps[-1]))
                 else:
-                    ck.ob(R("R11.2"), "%s/failed-mapping-not-released" % an, tm.target, not frees, "failed mapping attempt releases %d mapping(s)" % len(frees))
+                    _ob(R("R11.2"), "%s/failed-mapping-not-released" % an, tm.target, not frees, "failed mapping attempt releases %d mapping(s)" % len(frees))
                 # R11.5 progress of the hint
                 hint = maps[-1].args[0] if maps else None
                 adv = None
@@ -177,17 +183,17 @@ def allocator_obligations(ck, tm, R=lambda r: r):
                                 terms, c = affine(binop("sub", nv.e, hint.e, nv.w), nv.w)
                                 adv = (terms, c)
                 ok5 = adv is not None and ((not adv[0] and 0 < adv[1] < (1 << 40)) or (len(adv[0]) == 1 and list(adv[0].values())[0] == 1 and adv[1] == 0))
-                ck.ob(R("R11.5"), "%s/hint-advances" % an, tm.target, ok5,
+                _ob(R("R11.5"), "%s/hint-advances" % an, tm.target, ok5,
                       "next hint - hint = %s" % ("%s + %s" % ({fmt(k, 3): vv for k, vv in adv[0].items()}, adv[1]) if adv else "unknown"),
                       where(maps[-1]) if maps else None)
             elif v.status == "diverged":
                 ndiv += 1
-                ck.ob(R("R11.3"), "%s/exhaustion-diverges" % an, tm.target, not frees or True, "loop exit diverges (%s)" % v.note)
+                _ob(R("R11.3"), "%s/exhaustion-diverges" % an, tm.target, not frees or True, "loop exit diverges (%s)" % v.note)
             else:
-                ck.ob(R("R11.3"), "%s/unexpected-exit" % an, tm.target, False, "allocator path ends with status %s" % v.status)
-        ck.floor(R("R11.1"), "%s/accepting-paths" % an, nret, 1, tm.target)
-        ck.floor(R("R11.2"), "%s/rejecting-paths" % an, nrej, 1, tm.target)
-        ck.floor(R("R11.3"), "%s/diverging-paths" % an, ndiv, 1, tm.target)
+                _ob(R("R11.3"), "%s/unexpected-exit" % an, tm.target, False, "allocator path ends with status %s" % v.status)
+        _floor(R("R11.1"), "%s/accepting-paths" % an, nret, 1, tm.target)
+        _floor(R("R11.2"), "%s/rejecting-paths" % an, nrej, 1, tm.target)
+        _floor(R("R11.3"), "%s/diverging-paths" % an, ndiv, 1, tm.target)
     mapping_request_obligations(ck, R("R11.1"), tm)
     return bound_strict
 
